@@ -2,6 +2,8 @@
 # soak: every check, several seeds, on the unchanged tree; prints any VIOLATION (= false alarm or new finding)
 # usage: tools/soak.sh <tier> <seed>...
 cd "$(dirname "$0")/.."
+# with `vp run --with-repo` use the snapshot of /repo, so that edits to /repo while the soak runs do not disturb it
+[ -n "$VP_RUN_REPO" ] && export VERIF_REPO="$VP_RUN_REPO"
 [ -x lean/.lake/build/bin/qmodel ] || ./setup.sh
 tier="$1"; shift
 for seed in "$@"; do
